@@ -5,6 +5,7 @@ import itertools
 
 from hypothesis import strategies as st
 
+from fibertree import Tensor
 from fibertree.model import Format
 
 from .. import build, gen, model, observe
@@ -220,6 +221,16 @@ def small_cases(tier):
                        "route": build.ROUTES[i % len(build.ROUTES)], "fspec": fspec, "tfmt": None, "sel": [i, i + 1, i + 2],
                        "late": [i, i // 3] if i % 2 else None}
                 i += 1
+    # empty tensors created without a shape (every shape is 0 then; with elements the shape of an ABSENT fiber
+    # of an uncompressed rank would be ambiguous -- the rank's estimate or the empty fiber's own)
+    for d in (1, 2, 3):
+        rank_ids = ["M", "K", "N"][:d]
+        for route in ("ref", "fiber", "yaml", "deepcopy"):      # (a nest of lists always declares its shape)
+            for fmts in itertools.product("CU", repeat=d):
+                fspec = {r: {"format": f, "fhbits": 7, "cbits": 100, "pbits": 1000, "rhbits": 3}
+                         for r, f in zip(rank_ids, fmts)}
+                yield {"tree": {"rank_ids": rank_ids, "shape": [4] * d, "default": 0, "auth": False, "tree": []},
+                       "route": route, "fspec": fspec, "tfmt": None, "sel": [0, 1, 2], "late": None}
 
 
 # ---------------------------------------------------------------- check
@@ -237,6 +248,22 @@ def check(case, rec):
     d = len(rank_ids)
 
     t = build.build_tensor(tspec, case["route"])
+    qshape = None
+    if not tspec.get("auth", True):
+        # no declared shape (enumerated empty tensors only): every rank's shape is the estimate 0
+        case = dict(case, mutate=None, split=None, late=None)
+        est = [0] * d
+
+        def grow(tr, lvl):
+            for c, ch in tr:
+                est[lvl] = max(est[lvl], c + 1)
+                if lvl < d - 1:
+                    grow(ch, lvl + 1)
+        grow(tspec["tree"], 0)
+        shape = est
+        qshape = [2] * d        # no shape is declared, so any coordinate may be asked about
+        rec.cls("undeclared-shape")
+        rec.cls("undeclared-shape-empty-rank", 0 in est)
     if case["tfmt"]:
         for r, f in zip(rank_ids, case["tfmt"]):
             t.setFormat(r, f)
@@ -321,7 +348,7 @@ def check(case, rec):
         # -- every partial point of the shape: fiber and sub-tree footprints
         n_absent = n_stored_empty = 0
         for k in range(d):
-            for point in itertools.product(*[range(s) for s in shape[:k]]):
+            for point in itertools.product(*[range(s) for s in (qshape or shape)[:k]]):
                 node, status = node_at(raw, point)
                 if status == "absent":
                     n_absent += 1
@@ -336,7 +363,7 @@ def check(case, rec):
         leaf = full[rank_ids[-1]]
         stored_pts = sorted(p for p in allpts if node_at(raw, p[:-1])[1] == "stored"
                             and any(model.tuplify(c) == p[-1] for c, _ in node_at(raw, p[:-1])[0]))
-        picks = [allpts[s % len(allpts)] for s in case["sel"]]
+        picks = [allpts[s % len(allpts)] for s in case["sel"]] if allpts else []
         if stored_pts:
             picks.append(stored_pts[case["sel"][0] % len(stored_pts)])
         for p in picks:
@@ -386,6 +413,19 @@ def check(case, rec):
     rec.cls("C-over-valueless-child", any(fmts[i] == "C" and any(not holds_value(ch, d - 1 - i, default)
                                                                  for n in levels[i] for _, ch in n) for i in range(d - 1)))
     rec.nontrivial(d >= 2 and mixed and expl)
+
+
+def _pin_p37():
+    t = Tensor(rank_ids=["M", "K"])                      # no shape declared, nothing stored
+    fm = Format(t, {"M": {"format": "C"}, "K": {"format": "U", "fhbits": 7, "cbits": 100, "pbits": 1000}})
+    try:
+        got = fm.getSubTree(0)
+    except (IndexError, ValueError) as e:
+        return f"getSubTree(0) of an empty tensor without declared shape (rank K uncompressed) raised {type(e).__name__}: {e}"
+    return None if got == 7 else f"getSubTree(0) = {got}, an empty uncompressed fiber of estimated shape 0 takes 7 bits"
+
+
+PINNED = {"P37-shape-of-fiberless-estimated-rank": _pin_p37}
 
 
 PARTS = [
